@@ -242,3 +242,25 @@ def gen_mesh(rng, big=False):
     tags.append("orient=" + mode)
     selfcheck(m)
     return m, tags
+
+
+def declare(rng, m):
+    """faces / edges declared before construction: random sub-sets of the cells' triangles / sides, each in a random
+    vertex order (what a .mesh file with boundary triangles or tetrahedron(volume=True) hands to the constructor)"""
+    tris = sorted({tuple(sorted(t)) for c in m["C"] for t in itertools.combinations(c, 3)})
+    sides = sorted({tuple(sorted(t)) for c in m["C"] for t in itertools.combinations(c, 2)})
+    F0, E0 = [], []
+    r = rng.random()
+    if r < 0.35:
+        k = rng.choice([1, 2, 3, len(tris) // 2, len(tris)])
+        for t in rng.sample(tris, min(k, len(tris))):
+            t = list(t)
+            rng.shuffle(t)
+            F0.append(t)
+    if rng.random() < 0.25:
+        k = rng.choice([1, 2, len(sides) // 2, len(sides)])
+        for t in rng.sample(sides, min(k, len(sides))):
+            t = list(t)
+            rng.shuffle(t)
+            E0.append(t)
+    return F0, E0
